@@ -25,22 +25,43 @@ func c22(c *Ctx) {
 			pkg, fn string
 			arm     VM
 			label   string
+			ctx     VM // the context whose Done() is the arm, when the arm has that form (enables the helper look-through)
 		}
 		sites := []site{
-			{"grpc", "pickerWrapper.pick", doneOf(ParamV("ctx")), "picker wait"},
-			{"grpc", "ClientConn.waitForResolvedAddrs", doneOf(ParamV("ctx")), "name-resolution wait"},
-			{"grpc", "csAttempt.shouldRetry", doneOf(FieldLoad(c.field("grpc", "clientStream", "ctx"))), "retry backoff wait"},
-			{tr, "http2Client.NewStream", doneOf(DataDep(ParamV("ctx"))), "stream-quota wait"},
-			{tr, "writeQuota.get", FieldLoad(c.field(tr, "writeQuota", "done")), "write-quota wait"},
-			{tr, "ClientStream.waitOnHeader", doneOf(FieldLoad(c.field(tr, "Stream", "ctx"))), "header wait"},
-			{tr, "recvBufferReader.read", FieldLoad(c.field(tr, "recvBufferReader", "ctxDone")), "receive wait"},
-			{tr, "recvBufferReader.readClient", FieldLoad(c.field(tr, "recvBufferReader", "ctxDone")), "receive wait (client)"},
-			{tr, "recvBufferReader.readMessageHeader", FieldLoad(c.field(tr, "recvBufferReader", "ctxDone")), "header-bytes wait"},
-			{tr, "recvBufferReader.readMessageHeaderClient", FieldLoad(c.field(tr, "recvBufferReader", "ctxDone")), "header-bytes wait (client)"},
+			{"grpc", "pickerWrapper.pick", doneOf(ParamV("ctx")), "picker wait", ParamV("ctx")},
+			{"grpc", "ClientConn.waitForResolvedAddrs", doneOf(ParamV("ctx")), "name-resolution wait", ParamV("ctx")},
+			{"grpc", "csAttempt.shouldRetry", doneOf(FieldLoad(c.field("grpc", "clientStream", "ctx"))), "retry backoff wait", FieldLoad(c.field("grpc", "clientStream", "ctx"))},
+			{tr, "http2Client.NewStream", doneOf(DataDep(ParamV("ctx"))), "stream-quota wait", DataDep(ParamV("ctx"))},
+			{tr, "writeQuota.get", FieldLoad(c.field(tr, "writeQuota", "done")), "write-quota wait", nil},
+			{tr, "ClientStream.waitOnHeader", doneOf(FieldLoad(c.field(tr, "Stream", "ctx"))), "header wait", FieldLoad(c.field(tr, "Stream", "ctx"))},
+			{tr, "recvBufferReader.read", FieldLoad(c.field(tr, "recvBufferReader", "ctxDone")), "receive wait", nil},
+			{tr, "recvBufferReader.readClient", FieldLoad(c.field(tr, "recvBufferReader", "ctxDone")), "receive wait (client)", nil},
+			{tr, "recvBufferReader.readMessageHeader", FieldLoad(c.field(tr, "recvBufferReader", "ctxDone")), "header-bytes wait", nil},
+			{tr, "recvBufferReader.readMessageHeaderClient", FieldLoad(c.field(tr, "recvBufferReader", "ctxDone")), "header-bytes wait (client)", nil},
 		}
 		for _, s := range sites {
 			f := c.fn(s.pkg, s.fn)
 			sels := instrsWhere(f, func(in ssa.Instruction) bool { x, ok := in.(*ssa.Select); return ok && x.Blocking })
+			if len(sels) == 0 && s.ctx != nil {
+				// the wait may live in a helper of the same package that is handed the context: the helper's blocking
+				// selects then carry the obligation (each must have the Done() arm of that parameter)
+				sels = helperSelects(f, s.ctx)
+				for _, in := range sels {
+					g := in.Parent()
+					found := false
+					for _, st := range in.(*ssa.Select).States {
+						for _, p := range g.Params {
+							pp := p
+							if doneOf(func(v ssa.Value) bool { return stripConv(v) == ssa.Value(pp) })(st.Chan) && helperGets(f, g, pp, s.ctx) {
+								found = true
+							}
+						}
+					}
+					c.Expect(found, in, g, "cancellation-arm", s.label+": blocking select (in a helper) without a cancellation arm")
+				}
+				c.Expect(len(sels) >= 1, nil, f, "has-blocking-select", s.label+": no blocking select found")
+				continue
+			}
 			c.Expect(len(sels) >= 1, nil, f, "has-blocking-select", s.label+": no blocking select found")
 			for _, in := range sels {
 				found := false
@@ -216,4 +237,64 @@ func doneOf(recv VM) VM {
 		}
 		return len(call.Call.Args) > 0 && recv(call.Call.Args[0])
 	}
+}
+
+// helperCalls: the synchronous static calls in f to functions of f's own package that are handed a value matching ctx.
+func helperCalls(f *ssa.Function, ctx VM) []*ssa.Call {
+	var out []*ssa.Call
+	for _, b := range f.Blocks {
+		for _, in := range b.Instrs {
+			call, ok := in.(*ssa.Call)
+			if !ok {
+				continue
+			}
+			g := call.Call.StaticCallee()
+			if g == nil || g.Pkg != f.Pkg || len(g.Blocks) == 0 {
+				continue
+			}
+			for _, a := range call.Call.Args {
+				if ctx(a) {
+					out = append(out, call)
+					break
+				}
+			}
+		}
+	}
+	return out
+}
+
+// helperSelects: the blocking selects of those helpers.
+func helperSelects(f *ssa.Function, ctx VM) []ssa.Instruction {
+	var out []ssa.Instruction
+	seen := map[*ssa.Function]bool{}
+	for _, call := range helperCalls(f, ctx) {
+		g := call.Call.StaticCallee()
+		if seen[g] {
+			continue
+		}
+		seen[g] = true
+		out = append(out, instrsWhere(g, func(in ssa.Instruction) bool { x, ok := in.(*ssa.Select); return ok && x.Blocking })...)
+	}
+	return out
+}
+
+// helperGets: every call from f to g passes a value matching ctx for parameter p.
+func helperGets(f, g *ssa.Function, p *ssa.Parameter, ctx VM) bool {
+	idx := -1
+	for i, q := range g.Params {
+		if q == p {
+			idx = i
+		}
+	}
+	n := 0
+	for _, call := range helperCalls(f, ctx) {
+		if call.Call.StaticCallee() != g {
+			continue
+		}
+		n++
+		if idx < 0 || idx >= len(call.Call.Args) || !ctx(call.Call.Args[idx]) {
+			return false
+		}
+	}
+	return n > 0
 }
